@@ -169,10 +169,33 @@ Record cfg := mkCfg { g_aliases : list (string * string); g_allow : bool; g_forb
 
 Definition default_cfg : cfg := mkCfg [] false false.
 
+(* a `class Config` written in a class body: it may derive from the Config its class would otherwise
+   see (`class Config(Parent.Config)`), it may be a plain class instead of a BaseConfig subclass, and it
+   sets any subset of the options *)
+Record cfgdecl := mkCD {
+  cd_inherit : bool;
+  cd_plain   : bool;                 (* written `class Config:` (no bases) instead of `class Config(BaseConfig):` *)
+  cd_aliases : option (list (string * string));
+  cd_allow   : option bool;
+  cd_forbid  : option bool
+}.
+
 Record level := mkL {
   l_decls : list (fld * bool);      (* declarations of this class body, in order; bool = init *)
-  l_cfg   : option cfg              (* the class body defines its own Config *)
+  l_cfg   : option cfgdecl          (* the class body defines its own Config *)
 }.
+
+Definition apply_cd (base: cfg) (cd: cfgdecl) : cfg :=
+  mkCfg (match cd_aliases cd with Some a => a | None => g_aliases base end)
+        (match cd_allow cd with Some b => b | None => g_allow base end)
+        (match cd_forbid cd with Some b => b | None => g_forbid base end).
+
+(* Python attribute lookup on the Config class the class sees *)
+Definition step_cfg (acc: cfg) (l: level) : cfg :=
+  match l_cfg l with
+  | Some cd => apply_cd (if cd_inherit cd then acc else default_cfg) cd
+  | None => acc
+  end.
 
 Fixpoint upsert (p: fld * bool) (fs: list (fld * bool)) : list (fld * bool) :=
   match fs with
@@ -186,8 +209,7 @@ Definition collect (ls: list level) : list (fld * bool) :=
 (* the init fields, in definition order *)
 Definition effective (ls: list level) : list fld := map fst (filter snd (collect ls)).
 
-Definition nearest_cfg (ls: list level) : cfg :=
-  fold_left (fun acc l => match l_cfg l with Some g => g | None => acc end) ls default_cfg.
+Definition nearest_cfg (ls: list level) : cfg := fold_left step_cfg ls default_cfg.
 
 (* ls: base-most class first, the class itself last *)
 Definition class_of (ls: list level) (discr: option (option string)) : cls :=
@@ -226,3 +248,18 @@ Definition observation_eqb (a b: observation) : bool :=
   | VExtra x, VExtra y => list_eqb key_eqb x y
   | _, _ => false
   end.
+
+(* ---- views used by the harness to compare the modelled Python/dataclasses semantics with the real classes ---- *)
+Definition decl_view (ds: list (fld * bool)) : list (string * option string * bool) :=
+  map (fun p => (f_name (fst p), f_meta (fst p), snd p)) ds.
+
+Definition ostr_eqb (a b: option string) : bool :=
+  match a, b with Some x, Some y => String.eqb x y | None, None => true | _, _ => false end.
+
+Definition view_eqb (a b: list (string * option string * bool)) : bool :=
+  list_eqb (fun p q => String.eqb (fst (fst p)) (fst (fst q)) && ostr_eqb (snd (fst p)) (snd (fst q))
+                       && Bool.eqb (snd p) (snd q)) a b.
+
+Definition cfg_eqb (a b: cfg) : bool :=
+  list_eqb (fun p q => String.eqb (fst p) (fst q) && String.eqb (snd p) (snd q)) (g_aliases a) (g_aliases b)
+  && Bool.eqb (g_allow a) (g_allow b) && Bool.eqb (g_forbid a) (g_forbid b).
